@@ -39,6 +39,9 @@ def check(model, tier):
     structure.r06_1_flags(ctx)
     optional_rules.r_optional_truthiness(ctx, "R06.5")
     commute.r04_4_set_formulas(ctx, rule="R06.6")
+    from ..rules import bounds
+
+    bounds.r06_7_bound_formulas(ctx)
 
     run.rule("R06.2", "node metadata delegates: operation nodes ask their operation with their own operand(s) in order; markers delegate to their target; leaves validate max_rows >= min_rows", 10)
     for cname, operands in (("UnaryOperationRelation", ["self.target"]), ("BinaryOperationRelation", ["self.lhs", "self.rhs"])):
@@ -201,5 +204,6 @@ def check(model, tier):
         run.ok("R06.4", "Join.applied_columns:union")
     else:
         run.fail("R06.4", "Join.applied_columns:union", f"Join.applied_columns returns {rets}, not the union of both operands' columns", fi=jn)
+    structure.r_marker_reapply(ctx, "R06.8")
     run.assume("leaf bounds and columns declared by callers are truthful")
     return run
